@@ -8,6 +8,7 @@ import (
 	"net"
 	"net/http"
 	"net/http/httptest"
+	"os"
 	"regexp"
 	"sort"
 	"strings"
@@ -19,6 +20,7 @@ import (
 	"github.com/go-chi/chi/v5/middleware"
 	"github.com/jackc/pgproto3/v2"
 	"github.com/jackc/pgx/v4/pgxpool"
+	"github.com/rs/zerolog"
 
 	"github.com/shutter-network/rolling-shutter/rolling-shutter/keyper/epochkghandler"
 	"github.com/shutter-network/rolling-shutter/rolling-shutter/keyper/kprapi"
@@ -66,6 +68,8 @@ func init() {
 	// setupRouter installs middleware.Logger, which calls this package variable of chi: keep the
 	// middleware, replace its sink (stdout) by the observer above.
 	middleware.DefaultLogger = middleware.RequestLogger(logFormatter{})
+	// setupRouter logs "enabling the swagger ui" through zerolog's global logger
+	zerolog.SetGlobalLevel(zerolog.ErrorLevel)
 }
 
 // database observation: a Postgres wire-protocol endpoint that records the statements the
@@ -193,7 +197,17 @@ const watchdog = 10 * time.Second
 // kprapi.Server.setupRouter; stack "gate" = the same composition without the request validator
 // (outer router with Logger/Recoverer, Mount("/v1", StripPrefix), kproapi.ConfigMiddleware and
 // kproapi.HandlerFromMux on the real Server): the named stack "gate" of specs/HttpGate.tla.
-func NewGate(write bool, stack string) (*Gate, error) {
+// ui = SWAGGER_UI is set in the environment while setupRouter runs (it reads the variable once, at
+// construction); constructions are serialised because the environment is process-wide.
+func NewGate(write bool, stack string, ui bool) (*Gate, error) {
+	buildMu.Lock()
+	defer buildMu.Unlock()
+	if ui {
+		os.Setenv("SWAGGER_UI", uiDir())
+	} else {
+		os.Unsetenv("SWAGGER_UI")
+	}
+	defer os.Unsetenv("SWAGGER_UI")
 	pg := &pgObs{}
 	pool, err := pg.pool()
 	if err != nil {
@@ -214,6 +228,36 @@ func NewGate(write bool, stack string) (*Gate, error) {
 		return nil, fmt.Errorf("setupRouter panicked: %v", perr)
 	}
 	return g, nil
+}
+
+var (
+	buildMu   sync.Mutex
+	uiDirOnce sync.Once
+	uiDirPath string
+)
+
+// uiDir is an (empty) scratch directory standing in for an unpacked swagger-ui-dist.
+func uiDir() string {
+	uiDirOnce.Do(func() {
+		root := os.Getenv("VERIF_SCRATCH")
+		if root == "" {
+			root = os.TempDir()
+		}
+		d, err := os.MkdirTemp(root, "verif-c18-ui-")
+		if err != nil {
+			panic(err)
+		}
+		os.WriteFile(d+"/index.html", []byte("<html>swagger ui</html>"), 0o644)
+		uiDirPath = d
+	})
+	return uiDirPath
+}
+
+// CleanupScratch removes what uiDir made.
+func CleanupScratch() {
+	if uiDirPath != "" {
+		os.RemoveAll(uiDirPath)
+	}
 }
 
 func gateOnlyRouter(srv *kprapi.Server, write bool) http.Handler {
